@@ -1,5 +1,6 @@
 """C04 — group_by partitions the stream by key, preserving order within each group."""
 from hypothesis import strategies as st
+import rx
 import rxsci as rs
 
 from vf.core import Sub, Violation, Reject
@@ -59,7 +60,7 @@ def case_gen(draw):
     which = draw(st.sampled_from(['to_list', 'identity', 'p', 'p']))
     p = draw(gen.chain('int', INNER, 1, min_len=1)) if which == 'p' else ([['to_list']] if which == 'to_list' else [])
     parent = draw(st.one_of(st.none(), st.none(), st.sampled_from([['group_by', 2], ['roll', 3, 2], ['roll', 2, 2], ['roll', 4, 1], ['split', 'div', 4], ['split', 'mod', 2], ['gb+roll', 2, 3, 1], ['gb+roll', 3, 2, 1], ['gb+roll', 2, 4, 2]])))
-    return {'pool': pool, 'items': items, 'p': p, 'parent': parent}
+    return {'pool': pool, 'items': items, 'p': p, 'parent': parent, 'buffer': draw(st.integers(0, 3)) == 0}
 
 
 def check(case):
@@ -80,8 +81,21 @@ def check(case):
     # ---- real
     head, tail = [], []
     inner_ops = [drive.tap(head), rs.ops.map(lambda i: i[1])] + A.build_pipeline(p, A.Env()) + [drive.tap(tail)]
-    ops = parent_real(parent, [rs.ops.group_by(lambda i: i[0], inner_ops)])
-    r = drive.store(objs, ops)
+    if case.get('buffer'):
+        # the source re-uses ONE mutable record, updated in place before each emission (a row buffer); the first stage of
+        # the group pipeline copies it.  Every delivery is the identical object, its key is the key it has at that time.
+        inner_ops = [rs.ops.map(lambda i: (i[0], i[1]))] + inner_ops
+        ops = parent_real(parent, [rs.ops.group_by(lambda i: i[0], inner_ops)])
+
+        def rows():
+            buf = [None, None]
+            for k, v in objs:
+                buf[0], buf[1] = k, v
+                yield buf
+        r = drive.collect(rx.from_(rows()).pipe(rs.state.with_memory_store(ops)))
+    else:
+        ops = parent_real(parent, [rs.ops.group_by(lambda i: i[0], inner_ops)])
+        r = drive.store(objs, ops)
     H.require_clean(r, 'group_by run', **ctx)
     if not cmp.same_seq(r.items, exp, approx=True):
         raise Violation('output sequence differs from the reference partition model', expected=exp, got=r.items, **ctx)
@@ -120,6 +134,8 @@ def check(case):
     eqni = any(objs[i][0] == objs[j][0] and objs[i][0] is not objs[j][0] for i in range(len(objs)) for j in range(i + 1, len(objs)))
     labels = ['keys=%d' % min(len(eq_classes), 5), 'inner:' + ('p' if p and p != [['to_list']] else ('to_list' if p else 'identity')),
               'parent:' + (parent[0] if parent else 'none')]
+    if case.get('buffer'):
+        labels.append('reused-row-buffer')
     if eqni:
         labels.append('equal-not-identical')
     if any(type(a) is not type(b) and a == b for a in eq_classes for (b, _) in objs):
